@@ -1,0 +1,8 @@
+//go:build verif
+
+package kvs
+
+import "github.com/mit-pdos/go-journal/obj"
+
+// VerifLog exposes the journal to the verification harness (build tag verif).
+func (kvs *KVS) VerifLog() *obj.Log { return kvs.log }
